@@ -51,6 +51,13 @@ type WireResult struct {
 	Actions    map[string]int `json:"actions"`
 }
 
+// scribble overwrites a buffer the transport has given back (0 never occurs in the expected stream).
+func scribble(b []byte) {
+	for i := range b {
+		b[i] = 0
+	}
+}
+
 func streamByte(seed int64, i int) byte {
 	x := uint64(seed)*6364136223846793005 + uint64(i)*1442695040888963407
 	x ^= x >> 29
@@ -158,7 +165,9 @@ func runWireCase(c *WireCase) *WireResult {
 		}
 		switch op.Op {
 		case "write":
-			n, err := tr.Write(mk(op.N))
+			wb := mk(op.N)
+			n, err := tr.Write(wb)
+			scribble(wb) // Write has returned: the buffer is the caller's again
 			if err != nil || n != op.N {
 				fail("write-result", fmt.Sprintf("Write(%d bytes) returned (%d, %v)", op.N, n, err), step)
 			}
@@ -169,7 +178,11 @@ func runWireCase(c *WireCase) *WireResult {
 				bufs = append(bufs, mk(k))
 				total += k
 			}
+			held := append(net.Buffers(nil), bufs...)
 			n, err := tr.Writev(bufs)
+			for _, b := range held {
+				scribble(b)
+			}
 			if err != nil || int(n) != total {
 				fail("writev-result", fmt.Sprintf("Writev(%v) returned (%d, %v)", op.Ns, n, err), step)
 			}
